@@ -284,12 +284,12 @@ Definition guid_of (f : option tree) : option (list Z) :=
   match f with Some (TStr s) => parse_guid s | _ => None end.
 Definition date_of (f : option tree) : option Z :=
   match f with Some (TStr s) => parse_date s | _ => None end.
-(* StatusCodeVisitor: visit_u64 / visit_i64 truncate with `as u32`; from_bits_truncate keeps all 32 bits *)
-Definition status_of (f : option tree) : option Z :=
-  match f with
-  | Some (TNum (NInt z)) => if (I64MIN <=? z) && (z <=? U64MAX) then Some (z mod 2 ^ 32) else None
-  | _ => None
-  end.
+(* StatusCode::deserialize = deserializer.deserialize_u32(StatusCodeVisitor).  From a
+   serde_json::Value (arbitrary_precision) the number's text is parsed as u32 and given to visit_u32,
+   so only 0..=u32::MAX is accepted; from_bits_truncate keeps all 32 bits (StatusCode::all() is
+   0xFFFFFFFF).  (Reading from TEXT goes through visit_u64 / visit_i64, which truncate with `as u32`;
+   that path is not reached from a tree.) *)
+Definition status_of (f : option tree) : option Z := int_of 0 U32MAX f.
 (* Option<T>: absent or null = None *)
 Definition opt_of {A} (g : option tree -> option A) (f : option tree) : option (option A) :=
   match f with
@@ -432,6 +432,53 @@ Definition dvrest_of (fs : list (str * tree)) : option dvrest :=
   do vps <- opt_of (int_of 0 U16MAX) (get kServerPicoseconds fs);
   Some (DVRest status sts sps vts vps).
 
+(* the `match t { ... }` of VariantVisitor::visit_some, with the recursive readers as parameters *)
+Definition variant_body (vrec : option tree -> option variant) (drec : option tree -> option diag)
+           (ty : Z) (body : option tree) : option variant :=
+  match ty with
+  | 0 => match body with Some _ => None | None => Some VEmpty end
+  | 1 => match body with Some (TBool b) => Some (VBool b) | _ => None end
+  | 2 => do z <- numeric_int as_i64 body (-128) 127; Some (VSByte z)
+  | 3 => do z <- numeric_int as_u64 body 0 U8MAX; Some (VByte z)
+  | 4 => do z <- numeric_int as_i64 body (-32768) 32767; Some (VInt16 z)
+  | 5 => do z <- numeric_int as_u64 body 0 U16MAX; Some (VUInt16 z)
+  | 6 => do z <- numeric_int as_i64 body I32MIN I32MAX; Some (VInt32 z)
+  | 7 => do z <- numeric_int as_u64 body 0 U32MAX; Some (VUInt32 z)
+  | 8 => do z <- int64_body true I64MIN I64MAX body; Some (VInt64 z)
+  | 9 => do z <- int64_body false 0 U64MAX body; Some (VUInt64 z)
+  | 10 =>
+      if fix_f32 c then
+        do w <- numeric_f64 body F64_MIN F64_MAX;
+        let b := f64_to_f32 w in
+        if is_inf32 b && negb (is_inf64 w) then None else Some (VFloat b w)
+      else
+        do w <- numeric_f64 body F32_MIN_AS_F64 F32_MAX_AS_F64; Some (VFloat (f64_to_f32 w) w)
+  | 11 => do w <- numeric_f64 body F64_MIN F64_MAX; Some (VDouble w)
+  | 12 => match body with None => Some (VString None) | Some _ => do s <- ustr_of body; Some (VString s) end
+  | 13 => do t <- date_of body; Some (VDateTime t)
+  | 14 => do g <- guid_of body; Some (VGuid g)
+  | 15 => match body with None => Some (VByteString None) | Some _ => do b <- bstr_of body; Some (VByteString b) end
+  | 16 => match body with
+          | None => if fix_xml c then Some (VXml None) else None
+          | Some _ => do s <- ustr_of body; Some (VXml s)
+          end
+  | 17 => do n <- nodeid_of body; Some (VNodeId n)
+  | 18 => do x <- xnodeid_of body; Some (VXNodeId x)
+  | 19 => do z <- int_of 0 U32MAX body; Some (VStatus z)
+  | 20 => do q <- qname_of body; Some (VQName q)
+  | 21 => do l <- ltext_of body; Some (VLText l)
+  | 22 => do e <- extobj_of body; Some (VExtObj e)
+  | 23 => match body with
+          | Some (TObj bfs) =>
+              do v <- opt_of vrec (get kValue bfs);
+              do r <- dvrest_of bfs; Some (VDataValue v r)
+          | _ => None
+          end
+  | 24 => match body with Some _ => do v <- vrec body; Some (VVariant v) | None => None end
+  | 25 => match body with Some _ => do d <- drec body; Some (VDiag d) | None => None end
+  | _ => None
+  end.
+
 (* Variant::deserialize = deserialize_option(VariantVisitor) *)
 Fixpoint variant_of (fuel : nat) (f : option tree) : option variant :=
   match fuel with O => None | S fuel' =>
@@ -439,51 +486,10 @@ Fixpoint variant_of (fuel : nat) (f : option tree) : option variant :=
   | None | Some TNull => Some VEmpty
   | Some (TObj fs) =>
       do ty <- int_of 0 U32MAX (get kType fs);
-      let body := opt_value (get kBody fs) in
-      match opt_value (get kDimensions fs) with Some _ => None | None =>
-      match ty with
-      | 0 => match body with Some _ => None | None => Some VEmpty end
-      | 1 => match body with Some (TBool b) => Some (VBool b) | _ => None end
-      | 2 => do z <- numeric_int as_i64 body (-128) 127; Some (VSByte z)
-      | 3 => do z <- numeric_int as_u64 body 0 U8MAX; Some (VByte z)
-      | 4 => do z <- numeric_int as_i64 body (-32768) 32767; Some (VInt16 z)
-      | 5 => do z <- numeric_int as_u64 body 0 U16MAX; Some (VUInt16 z)
-      | 6 => do z <- numeric_int as_i64 body I32MIN I32MAX; Some (VInt32 z)
-      | 7 => do z <- numeric_int as_u64 body 0 U32MAX; Some (VUInt32 z)
-      | 8 => do z <- int64_body true I64MIN I64MAX body; Some (VInt64 z)
-      | 9 => do z <- int64_body false 0 U64MAX body; Some (VUInt64 z)
-      | 10 =>
-          if fix_f32 c then
-            do w <- numeric_f64 body F64_MIN F64_MAX;
-            let b := f64_to_f32 w in
-            if is_inf32 b && negb (is_inf64 w) then None else Some (VFloat b w)
-          else
-            do w <- numeric_f64 body F32_MIN_AS_F64 F32_MAX_AS_F64; Some (VFloat (f64_to_f32 w) w)
-      | 11 => do w <- numeric_f64 body F64_MIN F64_MAX; Some (VDouble w)
-      | 12 => match body with None => Some (VString None) | Some _ => do s <- ustr_of body; Some (VString s) end
-      | 13 => do t <- date_of body; Some (VDateTime t)
-      | 14 => do g <- guid_of body; Some (VGuid g)
-      | 15 => match body with None => Some (VByteString None) | Some _ => do b <- bstr_of body; Some (VByteString b) end
-      | 16 => match body with
-              | None => if fix_xml c then Some (VXml None) else None
-              | Some _ => do s <- ustr_of body; Some (VXml s)
-              end
-      | 17 => do n <- nodeid_of body; Some (VNodeId n)
-      | 18 => do x <- xnodeid_of body; Some (VXNodeId x)
-      | 19 => do z <- int_of 0 U32MAX body; Some (VStatus z)
-      | 20 => do q <- qname_of body; Some (VQName q)
-      | 21 => do l <- ltext_of body; Some (VLText l)
-      | 22 => do e <- extobj_of body; Some (VExtObj e)
-      | 23 => match body with
-              | Some (TObj bfs) =>
-                  do v <- opt_of (variant_of fuel') (get kValue bfs);
-                  do r <- dvrest_of bfs; Some (VDataValue v r)
-              | _ => None
-              end
-      | 24 => match body with Some _ => do v <- variant_of fuel' body; Some (VVariant v) | None => None end
-      | 25 => match body with Some _ => do d <- diag_of fuel' body; Some (VDiag d) | None => None end
-      | _ => None
-      end end
+      match opt_value (get kDimensions fs) with
+      | Some _ => None                (* "Dimensions not supported yet" *)
+      | None => variant_body (variant_of fuel') (diag_of fuel') ty (opt_value (get kBody fs))
+      end
   | _ => None
   end end.
 
@@ -528,10 +534,8 @@ End WithCfg.
 (* nesting depth of a tree: enough fuel for the recursive readers *)
 Fixpoint tdepth (t : tree) : nat :=
   match t with
-  | TArr l => S ((fix go (l : list tree) : nat :=
-                    match l with [] => O | x :: r => Nat.max (tdepth x) (go r) end) l)
-  | TObj fs => S ((fix go (fs : list (str * tree)) : nat :=
-                     match fs with [] => O | (_, x) :: r => Nat.max (tdepth x) (go r) end) fs)
+  | TArr l => S (list_max (map tdepth l))
+  | TObj fs => S (list_max (map (fun kx : str * tree => let '(_, x) := kx in tdepth x) fs))
   | _ => O
   end.
 Definition fuel_for (t : tree) : nat := S (tdepth t).
@@ -633,10 +637,15 @@ Fixpoint v_has_both (v : variant) : bool :=
   | _ => false
   end.
 
-(* depth of JSON nesting of the produced text: serde_json's reader refuses more than 128 *)
+(* depth of JSON nesting of the produced text: serde_json's text reader (from_str) refuses 128
+   nested objects or more ("recursion limit exceeded"); the tree reader has no limit *)
 Definition json_depth (a : value) : Z :=
   match to_tree now a with Some t => Z.of_nat (tdepth t) | None => 0 end.
 Definition DEPTH_LIMIT := 127.
+Definition text_readable (t : tree) : bool := Z.of_nat (tdepth t) <=? DEPTH_LIMIT.
+
+Fixpoint vnest (n : nat) (v : variant) : variant :=
+  match n with O => v | S n' => VVariant (vnest n' v) end.
 
 (* ---- NaN payloads are not representable in JSON ("NaN"): compare modulo the payload --------- *)
 Fixpoint v_norm (v : variant) : variant :=
@@ -751,7 +760,7 @@ Definition run_with (c : cfg) (cs : case) : list Z :=
           1 :: zlen e :: e ++
           match of_tree c (fuel_for t) (kind a) t with
           | None => [0; 1]
-          | Some a' => 1 :: enc_value a' ++ [if rust_eq a a' then 1 else 0; 1]
+          | Some a' => 1 :: enc_value a' ++ [if rust_eq a a' then 1 else 0; if text_readable t then 1 else 0]
           end
       end
   | CTree k t =>
